@@ -110,6 +110,150 @@ def _reach(g, start):
     return seen
 
 
+# ------------------------------------------------------------------------------------------------
+# C28: negotiation cases (MC_NtsKeNeg): (M) C28_OnlyMutuallySupported over all cases, (G) every case on real TLS
+# ------------------------------------------------------------------------------------------------
+def _c28_sig(a, fields):
+    if a["t"] == "adv":
+        un = [n for n, k, off in (("protocol", "proto", "offP"), ("algorithm", "alg", "offA")) if a["r"][k] not in a[off]]
+        return "NtsKeNeg:adv:unoffered=%s:%s" % ("+".join(un) or "none", ",".join(fields))
+    return "NtsKeNeg:%s:offP=%s,offA=%s,accepted=%s:%s" % (a["t"], "/".join(a["offP"]), "/".join(a["offA"]),
+                                                          "/".join(sorted(a["accepted"])), ",".join(fields))
+
+
+def c28(out, tier, seed):
+    prop = "C28"
+    cfgname = "Quick" if tier == "quick" else "Thorough"
+    cases = []
+    res = vf.run_tlc("MC_NtsKeNeg", "Gen_NtsKeNeg_%s.cfg" % cfgname, workers=1, timeout=1500, tags=("CASE", "INIT"),
+                     line_sink=lambda tag, obj: cases.append(obj) if tag == "CASE" else None, coverage=False)
+    if res.violated:
+        raise vf.ToolError("model NtsKeNeg/%s violates %s at design level:\n%s" % (cfgname, res.violated, res.error_trace[:3000]))
+    for c in cases:
+        c["act"]["accepted"] = sorted(c["act"].get("accepted", [])) if "accepted" in c["act"] else None
+        if c["act"]["accepted"] is None:
+            del c["act"]["accepted"]
+    cases.sort(key=lambda c: vf.key(c["act"]))
+    fam = collections.Counter(c["act"]["t"] for c in cases)
+    if min(fam.get(t, 0) for t in ("srv", "cli", "adv")) == 0:
+        raise vf.ToolError("vacuous: case families %s" % dict(fam))
+    kinds = collections.Counter((c["act"]["t"], c["out"].get("resp", c["out"].get("ok"))) for c in cases)
+    for need in (("srv", "keys"), ("srv", "noproto"), ("srv", "noalg"), ("cli", True), ("cli", False), ("adv", True), ("adv", False)):
+        if not kinds.get(need):
+            raise vf.ToolError("vacuous: no %s case in the model" % (need,))
+    out.add("states", res.distinct)
+    out.add("transitions", len(cases))
+    for t, n in fam.items():
+        out.add("cases_" + t, n)
+    wd = vf.workdir("NtsKeNeg_%s" % cfgname)
+    wf, rf = os.path.join(wd, "cases.ndjson"), os.path.join(wd, "results.ndjson")
+    vf.write_ndjson(wf, [{"id": n, "act": c["act"], "out": c["out"]} for n, c in enumerate(cases)])
+    vf.run_harness(CRATE, TEST_NTS, {"mode": "neg", "input": wf, "output": rf, "seed": seed}, timeout=3000)
+    results = vf.read_ndjson(rf)
+    if len(results) != len(cases):
+        raise vf.ToolError("harness returned %d results for %d cases" % (len(results), len(cases)))
+    confirmed = 0
+    for r in results:
+        c = cases[r["id"]]
+        if r["fail"] is None:
+            confirmed += 1
+            continue
+        f = r["fail"]
+        fields = set(f["fields"])
+        cone = set(c["cones"][prop])
+        detail = {"how": "replay", "case": c["act"], "expected": c["out"], "observed": f.get("observed"), "panic": f.get("panic"),
+                  "differing": sorted(fields)}
+        if fields & cone:
+            out.violation(_c28_sig(c["act"], sorted(fields & cone)), detail)
+        else:
+            out.divergences.append(detail)
+            out.notes.append("divergence outside C28's cone (%s, fields %s)" % (vf.key(c["act"])[:120], sorted(fields)))
+    out.add("cases_confirmed_on_impl", confirmed)
+    out.add("traces_validated_against_impl", 0)
+    out.coverage["exhaustive"] = True
+    for t in ("srv", "cli", "adv"):
+        c = next(x for x in cases if x["act"]["t"] == t and (x["out"].get("resp") == "keys" or x["out"].get("ok")))
+        out.sample({"case": c["act"], "expected": c["out"]})
+
+
+# ------------------------------------------------------------------------------------------------
+# C30: record / message classes (MC_KeRecords) on the real async parsers
+# ------------------------------------------------------------------------------------------------
+TEST_MSG = "nts::messages::verif_hook::verif_nts_messages"
+
+
+def _sym(r):
+    return "t%d.%s.%s" % (r["t"], "c" if r["crit"] else "n", r["cls"])
+
+
+def c30(out, tier, seed):
+    prop = "C30"
+    cfgname = "Quick" if tier == "quick" else "Thorough"
+    lines = []
+    res = vf.run_tlc("MC_KeRecords", "Gen_KeRecords_%s.cfg" % cfgname, workers=1, timeout=3000, tags=("CASE", "INIT"),
+                     line_sink=lambda tag, obj: lines.append(obj) if tag == "CASE" else None, coverage=False)
+    if res.violated:
+        raise vf.ToolError("model KeRecords/%s violates %s at design level:\n%s" % (cfgname, res.violated, res.error_trace[:3000]))
+    cases = {}
+    for l in lines:
+        if l["f"] == "rec":
+            c = {"f": "rec", "recs": l["recs"], "tail": l["tail"], "exp": {"rec": l["rec"]}}
+            cases[vf.key([c["f"], c["recs"], c["tail"]])] = c
+        else:
+            for tail, v in l["v"].items():
+                c = {"f": "msg", "recs": l["recs"], "tail": tail, "exp": {"req": v["req"], "resp": v["resp"]}}
+                cases[vf.key([c["f"], c["recs"], c["tail"]])] = c       # families overlap: dedup
+    cases = [cases[k] for k in sorted(cases)]
+    if not cases:
+        raise vf.ToolError("TLC enumerated no cases")
+    wd = vf.workdir("KeRecords_%s" % cfgname)
+    wf, rf = os.path.join(wd, "cases.ndjson"), os.path.join(wd, "results.ndjson")
+    vf.write_ndjson(wf, [{"id": n, "f": c["f"], "recs": c["recs"], "tail": c["tail"]} for n, c in enumerate(cases)])
+    vf.run_harness(CRATE, TEST_MSG, {"mode": "c30", "input": wf, "output": rf, "seed": seed}, timeout=3000)
+    results = vf.read_ndjson(rf)
+    if len(results) != len(cases):
+        raise vf.ToolError("harness returned %d results for %d cases" % (len(results), len(cases)))
+    evaluations, digests, accepted, capped, mism = 0, set(), collections.Counter(), 0, 0
+    tails = collections.Counter()
+    for r in results:
+        c = cases[r["id"]]
+        name = "+".join(_sym(x) for x in c["recs"]) + "|" + c["tail"]
+        tails[c["tail"]] += 1
+        for parser, exp in c["exp"].items():
+            o = r[parser]
+            evaluations += 1
+            bad = [f for f, good in (("panic", False), ("terminates", True), ("bounded", True), ("roundtrip", True)) if o[f] != good]
+            detail = {"how": "replay", "parser": parser, "case": {"recs": c["recs"], "tail": c["tail"]}, "expected_verdict": exp, "observed": o}
+            if bad:
+                out.violation("KeRecords:%s:%s:%s" % (parser, ",".join(bad), name), detail)
+            elif o["verdict"] != exp:
+                mism += 1
+                detail["differing"] = ["verdict"]
+                out.divergences.append(detail)
+                if mism <= 5:
+                    out.notes.append("verdict differs from the transcribed parser (not in C30's cone): %s %s expected %s observed %s" % (parser, name, exp, o["verdict"]))
+            if o["verdict"].startswith("ok"):
+                accepted[parser] += 1
+                digests.add((parser, o["digest"]))
+            if parser != "rec" and o["consumed"] == 4096:
+                capped += 1
+    out.add("verdict_mismatches_outside_cone", mism)
+    if min(accepted.get(p, 0) for p in ("rec", "req", "resp")) < 20:
+        raise vf.ToolError("vacuous: too few accepted inputs per parser: %s" % dict(accepted))
+    if capped < 20 or not all(tails.get(t) for t in ("eom", "eof", "endless", "straddle")):
+        raise vf.ToolError("vacuous: the 4096-byte limit was reached only %d times / tails %s" % (capped, dict(tails)))
+    out.add("evaluations", evaluations)
+    out.add("distinct_nontrivial", len(digests))
+    out.add("cases", len(cases))
+    out.add("model_sequences", len(lines))
+    for p, n in accepted.items():
+        out.add("accepted_" + p, n)
+    out.add("runs_stopped_by_the_4096_limit", capped)
+    out.coverage["exhaustive"] = True
+    for c in (cases[len(cases) // 3], cases[-1], next(x for x in cases if x["exp"].get("req") == "ok:FixedKey")):
+        out.sample({"recs": [_sym(x) for x in c["recs"]], "tail": c["tail"], "expected_verdicts": c["exp"]})
+
+
 def run(prop, tier, seed):
     out = vf.Outcome(prop, tier, seed, MANIFEST[prop]["level"])
     if prop == "C29":
@@ -120,12 +264,30 @@ def run(prop, tier, seed):
                             "permit pool and release-on-return emulate ntpd/src/daemon/keyexchange.rs (semaphore) in the harness",
                             "code observed as compiled for tests (debug assertions, overflow checks)"]
         c29(out, tier, seed)
+    elif prop == "C28":
+        out.coverage["rule"] = ("TLC enumerates all offer lists (length <= 2 quick / 3 thorough over 3 protocol and 3 algorithm symbols) x accepted-version "
+                                "sets x honest and adversarial well-formed answers and checks C28 on the transcribed choice functions; every case is "
+                                "run on the real server / client over a real TLS session; cookies decoded with the real KeySet and compared with "
+                                "keying material exported by the harness itself")
+        out.assumptions += ["TLS 1.3 sessions over in-memory duplex pipes with the repository's test certificates",
+                            "client offer lists other than the three built-in ones are installed by constructing KeyExchangeClient directly",
+                            "code observed as compiled for tests (debug assertions, overflow checks)"]
+        c28(out, tier, seed)
+    elif prop == "C30":
+        out.coverage["rule"] = ("TLC enumerates record classes [type 0..14/unknown, critical bit, declared-length-vs-body class] alone and in sequences "
+                                "(short sequences over full/core/exact alphabets; all single-symbol replacements/insertions/removals in 4 valid base "
+                                "messages) x tails {eom, eof, endless, fill-to-4096, straddle-4096}; each is concretised to bytes and parsed by the real "
+                                "async record/request/response parsers from a byte-counting reader with seeded chunking; non-trivial = accepted by "
+                                "the parser; distinct = distinct re-serialised bytes per parser")
+        out.assumptions += ["round-trip equality of requests/responses is structural (all fields, key bytes) since the types have no PartialEq",
+                            "termination = completes within 2e6 polls of a reader that always makes progress"]
+        c30(out, tier, seed)
     else:
         raise vf.ToolError("unknown property %s" % prop)
     return out
 
 
-PROPS = ["C29"]
+PROPS = ["C29", "C28", "C30"]
 
 MANIFEST = {
     "C29": dict(level="model_checking", engine="tlc+replay", design_ref="6.8, 7 (Key exchange group)",
@@ -137,4 +299,21 @@ MANIFEST = {
                      "further pool requests on a kept-open connection are compared but not attributed to C29 (statement is silent)",
                 text="On a new connection FixedKey/Support requests are served only with a configured token, otherwise Error(BadRequest), no cookies, "
                      "closed; kept open iff asked and a permit was free; plain KeyExchange on a kept-open connection refused."),
+    "C28": dict(level="model_checking", engine="tlc+replay", design_ref="6.8, 7 (Key exchange group), 9 (F-7)",
+                technique="negotiation transcribed as pure functions in spec/NtsKe.tla part 2 (ServerChoice, ClientAdopt); TLC enumerates every case of "
+                          "MC_NtsKeNeg and checks C28_OnlyMutuallySupported; every case replayed over real TLS: real server vs byte-level client, real "
+                          "client vs real server, real client vs harness TLS server writing arbitrary well-formed answers; keys compared with the "
+                          "harness's own RFC 8915 export and cookies decoded with the real KeySet",
+                note="offer lists up to length 2 (quick) / 3 (thorough); adversarial answers: one protocol x one algorithm x cookies {0,1,9} (quick) / 0..9 "
+                     "x server/port records; client offer lists beyond the built-in three are injected by direct construction",
+                text="Server picks the first accepted protocol and first supported algorithm of the client's lists and issues 8 cookies decoding to the "
+                     "TLS-exported keys, or the no-overlap answer and no cookies; client adopts only offered parameters and derives the same keys."),
+    "C30": dict(level="exploration", engine="tlc+replay", design_ref="6.8, 7 (Key exchange group)",
+                technique="record/message grammar and transcribed parser verdicts in spec/KeRecords.tla; TLC enumerates the input classes (MC_KeRecords) "
+                          "and checks the model-level bound; harness concretises every class and runs the real async parsers with a byte-counting, "
+                          "chunking reader; oracle: no panic, termination, <= 4096 bytes consumed per message, parse(serialize(v)) == v",
+                note="structured exploration, not random bytes: accept/reject verdicts of the transcribed parsers are compared too but reported only as "
+                     "notes (the statement does not fix them)",
+                text="Parsing any modelled byte stream as record/request/response terminates without panic, consumes at most 4096 bytes of a message; "
+                     "anything accepted re-serialises to bytes that parse back to an equal value."),
 }
